@@ -37,7 +37,12 @@ type jMut struct {
 }
 
 var jKinds = []string{"delete", "null", "zero", "negative", "huge", "float", "string", "empty-string", "short-string", "long-string", "bool",
-	"empty-array", "null-in-array", "big-array", "empty-object", "object", "array-of-objects", "rename", "nested", "truncate-b64", "bad-b64", "duplicate-element"}
+	"empty-array", "null-in-array", "big-array", "empty-object", "object", "array-of-objects", "rename", "nested", "truncate-b64", "bad-b64", "duplicate-element", "number-edge"}
+
+// innerKinds: mutation kinds used for the JSON document carried inside an operation's payload (weighted towards values
+// that pass decoding and reach the handler's own logic)
+var innerKinds = []string{"number-edge", "number-edge", "number-edge", "null", "delete", "truncate-b64", "bad-b64", "empty-string", "short-string", "zero", "negative",
+	"huge", "string", "empty-array", "duplicate-element", "null-in-array", "bool"}
 
 func genJMuts(rt *rapid.T, max int) []jMut {
 	k := rapid.IntRange(1, max).Draw(rt, "nmut")
@@ -114,6 +119,11 @@ func mutateJSON(doc []byte, m jMut, depth int) ([]byte, bool) {
 		set(-1 - m.A%5)
 	case "huge":
 		set(json.Number([]string{"9223372036854775807", "18446744073709551616", "-9223372036854775808", "1e400", "4294967296", "2147483648"}[m.A%6]))
+	case "number-edge":
+		if _, ok := cur.(json.Number); !ok {
+			return nil, false
+		}
+		set(json.Number([]string{"-1", "0", "1", "2", "3", "7", "255", "65536", "2147483647", "-2147483648", "9223372036854775807"}[m.A%11]))
 	case "float":
 		set(1.5)
 	case "string":
@@ -365,12 +375,23 @@ type c18Op struct {
 	Op    int    `json:"op"`
 	Muts  []jMut `json:"muts"`
 	At    int    `json:"at"` // machine state: the state before operation (op+at) of the trace
+	// Inner, if set, replaces Muts: one or two mutations of the JSON document inside the operation's payload
+	Inner []jMut `json:"inner,omitempty"`
 }
 
 func c18GenOp(rt *rapid.T) c18Op {
 	nt := rapid.SampledFrom([][2]int{{2, 2}, {3, 2}, {4, 3}}).Draw(rt, "nt")
 	return c18Op{Trace: rapid.SampledFrom([]string{"honest", "twobatches"}).Draw(rt, "trace"), N: nt[0], T: nt[1], Op: rapid.IntRange(0, 50).Draw(rt, "op"),
 		Muts: genJMuts(rt, 3), At: rapid.SampledFrom([]int{0, 0, 0, 1, 2, -1}).Draw(rt, "at")}
+}
+
+func c18GenOpInner(rt *rapid.T) c18Op {
+	nt := rapid.SampledFrom([][2]int{{2, 2}, {3, 2}, {4, 3}}).Draw(rt, "nt")
+	p := c18Op{Trace: rapid.SampledFrom([]string{"honest", "twobatches"}).Draw(rt, "trace"), N: nt[0], T: nt[1], Op: rapid.IntRange(0, 50).Draw(rt, "op"), At: 0}
+	for i, k := 0, rapid.IntRange(1, 2).Draw(rt, "ninner"); i < k; i++ {
+		p.Inner = append(p.Inner, jMut{Path: rapid.IntRange(0, 400).Draw(rt, "path"), Kind: rapid.SampledFrom(innerKinds).Draw(rt, "kind"), A: rapid.IntRange(0, 100000).Draw(rt, "a")})
+	}
+	return p
 }
 
 func dbSnapshot(dir string) map[string][]byte {
@@ -403,6 +424,21 @@ func c18RunOp(t *testing.T, st *vstat.Stats, p c18Op) (v *viol) {
 	at := (p.Op%len(recs) + p.At + len(recs)) % len(recs)
 	state := recs[at]
 	file, applied := applyJMuts(src.OpFile, p.Muts)
+	if len(p.Inner) > 0 {
+		// mutations of the JSON document inside the operation's payload, the rest of the file left genuine
+		var o types.Operation
+		if json.Unmarshal(src.OpFile, &o) == nil && len(o.Payload) > 0 {
+			if inner, names := applyJMuts(o.Payload, p.Inner); len(names) > 0 {
+				o.Payload = inner
+				if bz, err := json.Marshal(o); err == nil {
+					file, applied = bz, nil
+					for _, n := range names {
+						applied = append(applied, "payload:"+n)
+					}
+				}
+			}
+		}
+	}
 	synctest.Test(t, func(t *testing.T) {
 		root := tmpRoot("c18op-")
 		defer os.RemoveAll(root)
@@ -463,13 +499,16 @@ func c18RunOp(t *testing.T, st *vstat.Stats, p c18Op) (v *viol) {
 			v = violf("airgapped-panic:"+string(src.Type), "%s: ProcessOperation panicked (the prompt has no recover): %s", desc, clip(pan, 500))
 			return
 		}
-		m.Close()
-		closed = true
-		world.Drain()
-		after := dbSnapshot(mdir)
+		var after map[string][]byte
+		if perr != nil {
+			m.Close()
+			closed = true
+			world.Drain()
+			after = dbSnapshot(mdir)
+		}
 		if perr == nil {
 			// the machine answered (with a result or an error result): the operator goes on with the genuine operations that
-			// follow in the ceremony; none of them may crash the machine either
+			// follow in the ceremony, on the same running machine; none of them may crash it either
 			cont := 0
 			for k := at; k < len(recs) && cont < 4; k++ {
 				var gop types.Operation
@@ -684,6 +723,7 @@ func TestC18(t *testing.T) {
 	rapidProp(t, st, "messages", perShard(pick(8000, 400000)), 1, c18GenMsg, func(p c18Msg) *viol { return c18RunMsg(t, st, p) })
 	rapidProp(t, st, "poisoned-continuation", perShard(pick(6400, 300000)), 4, c18GenGentle, func(p c18Msg) *viol { return c18RunMsg(t, st, p) })
 	rapidProp(t, st, "operations", perShard(pick(1600, 60000)), 2, c18GenOp, func(p c18Op) *viol { return c18RunOp(t, st, p) })
+	rapidProp(t, st, "operation-payloads", perShard(pick(2400, 80000)), 6, c18GenOpInner, func(p c18Op) *viol { return c18RunOp(t, st, p) })
 	rapidProp(t, st, "api", perShard(pick(2400, 100000)), 3, c18GenAPI, func(p c18API) *viol { return c18RunAPI(t, st, p) })
 	rapidProp(t, st, "range-bounds", perShard(pick(1600, 40000)), 5, c18GenRange, func(p c18Range) *viol { return c18RunRange(t, st, p) })
 }
